@@ -134,7 +134,9 @@ def plans(graph, tier):
     total = 1
     for f in full:
         total *= len(f)
-    cap = 300 if tier == "quick" else 5000
+    # thorough: every plan of the 3-node graphs (<= 4096 each); the 4-node graphs have >= 4096 plans each - enumerating them all is
+    # 67 000 explorations (measured: more than 30 core-hours), so they get the policy menus with single-node deviations
+    cap = 300 if tier == "quick" else (5000 if len(names) <= 3 else 1100)
     if total <= cap:
         for combo in itertools.product(*full):
             yield {(names[i // 2], i % 2): combo[i] for i in range(len(combo))}
@@ -265,7 +267,7 @@ def run(ctx):
     ctx.rule = (
         "explicit-state search over a virtual per-channel-FIFO network of (i) Probe computations built on the real "
         f"SynchronousComputationMixin: every connected graph on <= 3 (thorough 4) nodes x every send plan (computation, round parity) -> subset of "
-        f"neighbours (all plans when <= 300 (thorough 5000) exist, otherwise the all/none/alternate/first/last policies with single-node deviations), "
+        f"neighbours (all plans when <= 300 (thorough: 5000 on up to 3 nodes) exist, otherwise the all/none/alternate/first/last policies with single-node deviations), "
         f"odd plans sending through post_msg and even plans through the returned list, horizon R={R} rounds (2 for 4 nodes); (ii) the real DSA-tuto "
         "computations on a pair and a chain; ALL start orders and delivery interleavings with state caching. Oracle after every step: no "
         "ComputationException; rounds consecutive from 0; the dict handed in round c holds exactly the neighbours whose plan sent this "
